@@ -575,18 +575,16 @@ func (fv *FuncVC) mapStore(m Val, k Val, v Val, mt *types.Map, st *State, text s
 	n := fv.nextOrd("nilmap")
 	fv.oblig(st, "safe", fmt.Sprintf("safe:nilmap@%d", n), "store into map "+text, mkNot(mkEq(m.T, "nil")))
 	fv.addFact(st, mkNot(mkEq(m.T, "nil")))
-	D, V, C := fv.getHeap(st, d), fv.getHeap(st, vv), fv.getHeap(st, c)
-	had := sx("select", sx("select", D, m.T), k.T)
+	_ = c
+	D, V := fv.getHeap(st, d), fv.getHeap(st, vv)
 	fv.setHeap(st, d, sx("store", D, m.T, sx("store", sx("select", D, m.T), k.T, "true")))
 	fv.setHeap(st, vv, sx("store", V, m.T, sx("store", sx("select", V, m.T), k.T, v.T)))
-	fv.setHeap(st, c, sx("store", C, m.T, sx("+", sx("select", C, m.T), mkIte(had, "0", "1"))))
 }
 
 func (fv *FuncVC) mapLen(m Val, mt *types.Map, st *State) Val {
 	ks, vs := fv.th.sortOf(mt.Key()), fv.th.sortOf(mt.Elem())
-	_, _, c := fv.declMapHeaps(ks, vs)
-	t := mkIte(mkEq(m.T, "nil"), "0", sx("select", fv.getHeap(st, c), m.T))
-	fv.addFact(st, sx(">=", t, "0"))
+	d, _, c := fv.declMapHeaps(ks, vs)
+	t := mkIte(mkEq(m.T, "nil"), "0", sx(c, sx("select", fv.getHeap(st, d), m.T)))
 	return Val{t, SInt, types.Typ[types.Int]}
 }
 
@@ -785,8 +783,8 @@ func (fv *FuncVC) makeMap(mt *types.Map, st *State) Val {
 	ks, vs := fv.th.sortOf(mt.Key()), fv.th.sortOf(mt.Elem())
 	d, _, c := fv.declMapHeaps(ks, vs)
 	r := fv.freshRef(st, "map")
+	_ = c
 	fv.setHeap(st, d, sx("store", fv.getHeap(st, d), r, fv.th.constArr(ks, SBoolS, "false")))
-	fv.setHeap(st, c, sx("store", fv.getHeap(st, c), r, "0"))
 	return Val{r, SRef, mt}
 }
 
